@@ -46,6 +46,15 @@ func runC11Scripted(c *core.Ctx, nontriv *atomic.Int64) bool {
 			lens = append(lens, l)
 		}
 	}
+	// large messages: around every power of two up to 2^17 (chunked hashing, 16-bit and 32-bit length slips)
+	for k := 11; k <= 17; k++ {
+		for _, d := range []int{-1, 0, 1, 8, 9, 13} {
+			if l := 1<<uint(k) + d; l > maxLen {
+				lens = append(lens, l)
+			}
+		}
+	}
+	lens = append(lens, 65535+8, 65536+8, 65537+8, 100000, 132072)
 	mine := func(msgLen int, target float64) (uint64, error, interface{}) {
 		data := make([]byte, msgLen-8)
 		var nonce uint64
@@ -139,6 +148,8 @@ func runC11Scripted(c *core.Ctx, nontriv *atomic.Int64) bool {
 	if gp := vsched.PassThroughPanics(); len(gp) > 0 {
 		c.Violate("C11/mine/goroutine-panic", "a goroutine of Mine panicked during the boundary sweep: "+gp[0][:min(300, len(gp[0]))], nil, "", nil)
 	}
+	vbct.Script = nil
+	powNonceSweeps(c, "C11", 1)
 	c.Set("scripted_lengths", int64(len(lens)))
 	c.Set("scripted_targets_per_length", int64(61*5))
 	c.Sample(map[string]interface{}{"msg_len": 8, "k": 7, "target": "nextafter(3^7/8, +Inf)"})
